@@ -1062,9 +1062,10 @@ package yang
 // string starts. (The token queue itself is outside the subset: this is the
 // only clause of parser.next that is claimed.)
 //@ func (*parser).next props C16 C02
-//@   only loop1/inv
+//@   only loop1/
 //@   loop 1
-//@     invariant[a-concatenated-string-is-the-token-of-its-first-piece] t == loopentry(t)
+//@     invariant[a-concatenated-string-is-the-token-of-its-first-piece] t == atentry(t)
+//@     body_returns[what-is-handed-on-is-the-first-piece] result == old(t)
 //
 // peek and acceptRun leave the cursor inside the input; peek leaves the
 // position where it was.
